@@ -23,10 +23,21 @@ NL_CODE = {"\n": 0, "\r\n": 1, "\r": 2}
 BOM = b"\xef\xbb\xbf"
 UNDEF = 1114112
 
+_READY = []
+
+
+def rope_ready():
+    """import rope from the tree under test once per process (re-importing costs 0.2 s)"""
+    if not _READY:
+        ensure_repo_on_path()
+        _READY.append(True)
+
+
 # --------------------------------------------------------------------------------------------- codecs
 STD = {"utf-8": 0, "iso8859-1": 1, "ascii": 2}           # codecs.lookup(name).name of the codecs the model implements
 CHARMAP_NAMES = ["cp1252", "koi8-r", "iso-8859-15", "cp1251", "iso-8859-2", "cp437", "mac-roman", "iso-8859-7"]
-ORACLE_ONLY = ["euc-jp", "gbk", "shift_jis", "big5", "euc-kr"]  # multi-byte codecs: oracle only
+ORACLE_ONLY = ["euc-jp", "gbk", "shift_jis", "big5", "euc-kr",   # multi-byte codecs: oracle only
+               "utf-7", "hz"]       # not ASCII supersets ('+' is '+-', '~' is '~~'): all-ASCII text still needs the declared codec
 _TABLES = {}
 
 
@@ -143,7 +154,7 @@ def spec_of_bytes(data):
 # --------------------------------------------------------------------------------------------- rope driver
 class Impl:
     def __init__(self):
-        ensure_repo_on_path()
+        rope_ready()
         from rope.base.project import Project
         self.Project = Project
         self.root = tempfile.mkdtemp(prefix="ropeverif-")
@@ -288,48 +299,59 @@ CODES = {1: "File.read()/File.newlines differ from FileModel.from_bytes",
 def oracle(data, op, new, r):
     """Returns (domain_tag, failure or None).  Everything is judged from bytes on disk and CPython."""
     spec = spec_of_bytes(data)
+    if spec is not None:
+        enc_name, text, style = spec
+        if r["read"][0] != text:
+            return "inside", "File.read() returns %r, the file declares %s and holds %r" % (
+                r["read"][0][:60], enc_name, text[:60])
+        if style and r["read"][1] != style:
+            return "inside", "File.newlines is %r for a file that consistently uses %r" % (r["read"][1], style)
+    return edit_oracle(data, new, op == 0, r["res"], r["after"], r["reread"][0], exc=r.get("exc", ""))
+
+
+def edit_oracle(data, new, is_file_write, res, after, reread, lenient_no_break=False, exc=""):
+    """One edit of the file holding [data]: [new] is written (File.write when is_file_write, else ChangeContents).
+    res: 0 written, 1 skipped, 2 LookupError, 3 UnicodeEncodeError; after: bytes on disk; reread: text a fresh File
+    reads afterwards.  lenient_no_break: when the file has no line break at all it carries no convention, and any
+    single convention is accepted for the text written (sessions: the File object may remember an earlier one)."""
+    spec = spec_of_bytes(data)
     if spec is None:
         # outside the property; the only promise left: a refused write leaves the file alone
-        if r["res"] in (1, 2, 3) and r["after"] != data:
+        if res in (1, 2, 3, 5) and after != data:
             return "outside", "write was refused/skipped but the bytes on disk changed"
         return "outside", None
     enc_name, text, style = spec
-    if r["read"][0] != text:
-        return "inside", "File.read() returns %r, the file declares %s and holds %r" % (
-            r["read"][0][:60], enc_name, text[:60])
-    if style and r["read"][1] != style:
-        return "inside", "File.newlines is %r for a file that consistently uses %r" % (r["read"][1], style)
-    if op == 0 and new == text:
-        if r["after"] != data:
+    if is_file_write and new == text:
+        if after != data:
             return "inside", "File.write(File.read()) changed the bytes on disk"
         return "inside", None
     if "\r" in new:
         return "inside-newcr", None           # callers pass "\n"-normalised text; anything else is unspecified
-    nl = style or "\n"
+    nls = [style] if style else (["\n", "\r\n", "\r"] if lenient_no_break else ["\n"])
     try:
-        expected = new.replace("\n", nl).encode(enc_name)
+        expected = [new.replace("\n", nl).encode(enc_name) for nl in nls]
     except UnicodeEncodeError:
-        if r["res"] == 0 or r["after"] != data:
+        if res == 0 or after != data:
             # the new text cannot be written in the declared encoding: it must be refused, not half-written
-            spec_after = spec_of_bytes(r["after"])
+            spec_after = spec_of_bytes(after)
             if spec_after is None or spec_after[1] != new:
                 return "inside-unencodable", "unencodable text was written and does not read back"
         return "inside-unencodable", None
-    spec_exp = spec_of_bytes(expected)
+    spec_exp = spec_of_bytes(expected[0])
     same_decl = (spec_exp is not None and codecs.lookup(spec_exp[0]).name == codecs.lookup(enc_name).name
                  and spec_exp[1] == new)
     if not same_decl:
         # the edit changed the declaration itself (or left the property): only "reads back equal" remains
-        if r["res"] == 0:
-            spec_after = spec_of_bytes(r["after"])
-            if spec_after is not None and r["reread"][0] != new:
+        if res == 0:
+            spec_after = spec_of_bytes(after)
+            if spec_after is not None and reread != new:
                 return "inside-redeclared", "text written through rope does not read back equal"
         return "inside-redeclared", None
-    if r["res"] != 0:
-        return "inside", "write of an encodable text was not performed (outcome %s %s)" % (r["res"], r.get("exc", ""))
-    if r["after"] != expected:
-        return "inside", "bytes after the edit differ from the text encoded as %s with %r newlines" % (enc_name, nl)
-    if r["reread"][0] != new:
+    if res != 0:
+        return "inside", "write of an encodable text was not performed (outcome %s %s)" % (res, exc)
+    if after not in expected:
+        return "inside", "bytes after the edit differ from the text encoded as %s with %r newlines" % (enc_name, nls[0] if len(nls) == 1 else "any")
+    if reread != new:
         return "inside", "text written through rope does not read back equal"
     return "inside", None
 
@@ -337,7 +359,7 @@ def oracle(data, op, new, r):
 # --------------------------------------------------------------------------------------------- generator
 ASCII_LINES = ["x = 1", "def f(a, b):", "    return a + b", "", "class C(object):", "    pass", "y = f(x, 2)  # sum",
                "s = 'text'", "# a comment", "import os", "\tz = [1, 2]", "print(s)", "if x:", "    y = -x",
-               "# decoding is fun", "name = 'encoding'", "    # the coding style"]
+               "# decoding is fun", "name = 'encoding'", "    # the coding style", "z = ~x + 1", "w += 1  # a+b~c"]
 POOL = {
     "utf-8": "é\xa0ª\x85ÿλЖ€中文 ﻿😀𝒳\x0c\x1c",
     "iso8859-1": "éàü\xa0ª\x85ÿ×²",
@@ -355,6 +377,8 @@ POOL = {
     "shift_jis": "あ漢ｱ",
     "big5": "中文",
     "euc_kr": "한글",
+    "utf-7": "+~é中&",
+    "hz": "~中文{}",
 }
 NAME_SPELLINGS = {
     "utf-8": ["utf-8", "UTF-8", "utf8", "utf_8", "U8", "Utf-8", "utf"],
@@ -425,6 +449,16 @@ def gen_valid(rng):
             bom = True
         elif r2 < 0.3:
             header = ["#!/usr/bin/env python"]
+    if rng.random() < 0.12 and not bom:
+        # a long first line (banner / shebang): the declaration on line 2 lies beyond, or straddles, character 256
+        n = rng.choice([200, 230, rng.randint(236, 262), 256, 300, 400])
+        first = rng.choice(["#" + "-" * n, "#!/usr/bin/env python" + " " * n + "# banner", "# " + "=*" * (n // 2)])
+        if declare:
+            header = [first, cookie]
+        else:
+            header = [first]
+        if rng.random() < 0.25 and declare:
+            header = [" " * rng.randint(225, 255) + cookie.lstrip()]     # the declaration itself straddles 256
     body = gen_body(rng, pool)
     shape = rng.random()
     lines = header + body
@@ -552,6 +586,16 @@ FIXED = [
     {"data": BOM + b"# coding: utf-8\nx = 1\n", "op": 1, "new": "﻿# coding: utf-8\nx = 2\n"},
     {"data": b"a\r\nb\rc\n", "op": 1, "new": "a\nb\nc\n"},
 ]
+for _n in (200, 238, 250, 256, 300, 400):
+    _t = "#" + "-" * _n + "\n# -*- coding: latin-1 -*-\ns = 'é'\n"
+    FIXED.append({"data": _t.replace("\n", "\r\n").encode("latin-1"), "op": 1, "new": _t + "y = 1\n", "stream": "fixed-long-header"})
+    _t = " " * (_n - 10) + "# coding: iso-8859-15\ns = '€'\n"
+    FIXED.append({"data": _t.encode("iso-8859-15"), "op": 0, "new": _t + "y = 1\n", "stream": "fixed-long-header"})
+for _enc, _body in (("utf-7", "x = a + b\ny = '+-'\n"), ("hz", "x = ~a\ny = '~{'\n"), ("utf-7", "s = 'é'\nx = 1 + 2\n")):
+    for _nl in ("\n", "\r\n"):
+        _t = "# coding: %s\n%s" % (_enc, _body)
+        FIXED.append({"data": _t.replace("\n", _nl).encode(_enc), "op": 1, "new": _t, "stream": "fixed-non-ascii-superset"})
+        FIXED.append({"data": _t.replace("\n", _nl).encode(_enc), "op": 0, "new": _t + "z = 3\n", "stream": "fixed-non-ascii-superset"})
 for _ck in HOSTILE_COOKIES:
     for _enc, _nl in (("latin-1", "\n"), ("utf-8", "\r\n")):
         _t = _ck + "\ns = 'é'\n"
@@ -610,6 +654,9 @@ def signature(obj):
     f64a998, c286168, 2fa467c and are replayed from corpus/C16), so no signature is matched any more; the classes
     are kept because they name the defect in the replay file if it ever comes back."""
     kind = obj.get("kind")
+    if kind == "session":
+        from harness import c16_sessions
+        return c16_sessions.signature(obj)
     if kind == "reopen-undo":
         return "stale-newlines:File.newlines unset when old_contents is supplied"
     if kind == "refactor":
@@ -636,7 +683,7 @@ def replay_obj(case):
 
 def run_reopen_undo(data, new):
     """Edit a file, close the project, reopen it, undo.  Returns the bytes after the edit and after the undo."""
-    ensure_repo_on_path()
+    rope_ready()
     from rope.base.project import Project
     root = tempfile.mkdtemp(prefix="ropeverif-")
     try:
@@ -667,7 +714,7 @@ REFACTOR_SRC = ("%(header)simport os\n\n\ndef oldname(a, b):\n    s = '%(ch)s'  
 
 def run_refactoring(which, data):
     """A real refactoring as the edit.  Returns bytes on disk afterwards."""
-    ensure_repo_on_path()
+    rope_ready()
     from rope.base.project import Project
     from rope.refactor.rename import Rename
     from rope.refactor.extract import ExtractVariable
@@ -719,8 +766,52 @@ def check_refactoring(which, enc_name, nl, text):
     return data, after, expected
 
 
+MULTI = [("a.py", "latin-1", "\r\n", "# -*- coding: latin-1 -*-\ndef oldname():\n    return 'é'\n"),
+         ("b.py", "utf-8", "\n", "from a import oldname\nprint(oldname(), '中😀')\n"),
+         ("c.py", "cp1252", "\r", "# vim: set fileencoding=cp1252 :\nimport a\nx = a.oldname()  # €"),
+         ("d.py", "utf-8", "\r\n", "import os\n\n\ndef other():\n    return 'é'\n")]
+
+
+def run_multi_rename():
+    """One Rename whose change set edits three files with three encodings and newline conventions (and leaves a
+    fourth alone).  Returns [(name, before, after, expected)]."""
+    rope_ready()
+    from rope.base.project import Project
+    from rope.refactor.rename import Rename
+    root = tempfile.mkdtemp(prefix="ropeverif-")
+    try:
+        for name, enc_name, nl, text in MULTI:
+            with open(os.path.join(root, name), "wb") as f:
+                f.write(text.replace("\n", nl).encode(enc_name))
+        with warnings.catch_warnings():
+            warnings.simplefilter("ignore")
+            p = Project(root, ropefolder=None)
+            try:
+                res = p.get_file("a.py")
+                changes = Rename(p, res, res.read().index("oldname") + 1).get_changes("newname")
+                p.do(changes)
+                mid = [open(os.path.join(root, name), "rb").read() for name, _, _, _ in MULTI]
+                p.history.undo()
+            finally:
+                p.close()
+        out = []
+        for (name, enc_name, nl, text), after in zip(MULTI, mid):
+            before = text.replace("\n", nl).encode(enc_name)
+            expected = text.replace("oldname", "newname").replace("\n", nl).encode(enc_name)
+            undone = open(os.path.join(root, name), "rb").read()
+            out.append((name, before, after, expected, undone))
+        return out
+    finally:
+        shutil.rmtree(root, ignore_errors=True)
+
+
 def replay(ctx, obj):
     kind = obj.get("kind")
+    if kind == "multi-rename":
+        return any(after != expected or undone != before for _, before, after, expected, undone in run_multi_rename())
+    if kind == "session":
+        from harness import c16_sessions
+        return c16_sessions.replay(ctx, obj)
     if kind == "refactor":
         text = "".join(chr(c) for c in obj["text"])
         data, after, expected = check_refactoring(obj["refactoring"], obj["encoding"], obj["newline"], text)
@@ -877,6 +968,8 @@ def run(ctx):
                         "outcome": r["res"], "after": repr(r["after"])[:200]})
     finally:
         impl.close()
+    from harness import c16_sessions
+    c16_sessions.run(ctx)
     # real refactorings as the edit (oracle only: bytes on disk = original bytes with the intended edit)
     for which in ("rename", "extract_variable"):
         for enc_name, nl, text in refactoring_cases():
@@ -888,6 +981,13 @@ def run(ctx):
                                "text": [ord(c) for c in text], "observed": repr(after)[:400], "expected": repr(expected)[:400]},
                               "C16: %s on a %s file with %r line ends: bytes differ from the original with the intended edit" % (
                                   which, enc_name, nl))
+    for name, before, after, expected, undone in run_multi_rename():
+        ctx.case(("multi-rename", name), nontrivial=True)
+        ctx.count("stream:refactoring:multi-file-rename")
+        if after != expected or undone != before:
+            ctx.violation({"kind": "multi-rename", "file": name, "observed": repr(after)[:300], "expected": repr(expected)[:300],
+                           "after_undo": repr(undone)[:300]},
+                          "C16: multi-file Rename: %s differs from the original with the intended edit (or undo does not restore it)" % name)
     # close / reopen / undo keeps the newline convention (History reloads ChangeContents with old_contents)
     for data, new in [(b"x = 1\ny = 2\n", "x = 1\ny = 2\nz = 3\n"),
                       (b"x = 1\r\ny = 2\r\n", "x = 1\ny = 2\nz = 3\n"),
